@@ -232,7 +232,7 @@ def stpLoop (cfg : Cfg) (isN onDest : Bool) (bumper origDest origDmax : Nat) (sr
       else
         let slen' := if isN then slen - 1 else slen + 1
         if (match srcbos with | none => false | some sb => decide (slen' ≥ sb)) then do
-          handlerS ESUNTERM
+          (if cfg.fixStpUnterm then handleError cfg origDest origDmax ESUNTERM else handlerS ESUNTERM)
           pure (0, ESUNTERM)
         else stpLoop cfg isN onDest bumper origDest origDmax srcbos dmax (dest+1) (src+1) slen'
 
